@@ -240,8 +240,11 @@ func (b *Buffer) startWrite() {
 
 // endRedactable adds the closing redaction marker.
 func (b *Buffer) startRedactable() {
-	if bytes.HasSuffix(b.buf, m.EndBytes) {
+	if bytes.HasSuffix(b.buf, m.EndBytes) && truncatedSuffix(b.buf[:len(b.buf)-m.EndLen]) == 0 {
 		// Special case: remove a trailing closing marker and call it a day.
+		// (Not if what the envelope ends with is a truncated utf-8
+		// sequence - possible for a line of an earlier output that is
+		// printed again: the bytes written next could complete it.)
 		b.buf = b.buf[:len(b.buf)-m.EndLen]
 	} else {
 		p, ok := b.tryGrowByReslice(len(m.StartS))
@@ -278,7 +281,35 @@ func (b *Buffer) SetMode(newMode OutputMode) {
 		b.endRedactable()
 	}
 	b.validUntil = len(b.buf)
+	if b.mode == SafeRaw {
+		// Pre-redacted content is not scanned, but it can end with a
+		// truncated utf-8 sequence (e.g. a line of an earlier output
+		// that is printed again). Leave such a tail to the next scan,
+		// which escapes a marker completed by the bytes that follow
+		// and otherwise guards the tail with an escape mark.
+		b.validUntil -= truncatedSuffix(b.buf)
+	}
 	b.mode = newMode
+}
+
+// truncatedSuffix returns the length of the truncated utf-8 sequence
+// (a lead byte followed by fewer continuation bytes than it
+// announces) that b ends with, or 0.
+func truncatedSuffix(b []byte) int {
+	for n := 1; n <= 3 && n <= len(b); n++ {
+		c := b[len(b)-n]
+		if c < 0x80 {
+			return 0
+		}
+		if c >= 0xC0 {
+			// A lead byte: is the sequence it starts incomplete?
+			if !utf8.FullRune(b[len(b)-n:]) {
+				return n
+			}
+			return 0
+		}
+	}
+	return 0
 }
 
 // Reset resets the buffer to be empty,
